@@ -73,3 +73,83 @@ pub use types::{
     CastlingRights, CastlingSide, Cell, Color, Coord, DrawReason, File, GameStatus, Outcome, Piece,
     Rank, WinReason,
 };
+
+/// Read-only hooks for the external verification harness (`--cfg owlchess_verif` only)
+#[cfg(owlchess_verif)]
+pub mod verif {
+    use crate::bitboard::Bitboard;
+    use crate::board::Board;
+    use crate::moves::{Move, PromotePiece};
+    use crate::types::{CastlingRights, CastlingSide, Cell, Color, Coord, File, Piece};
+
+    pub use crate::legal::{Checker, DefaultPrechecker, NilPrechecker, Prechecker};
+
+    pub fn king(c: Coord) -> Bitboard {
+        crate::attack::king(c)
+    }
+    pub fn knight(c: Coord) -> Bitboard {
+        crate::attack::knight(c)
+    }
+    pub fn pawn(col: Color, c: Coord) -> Bitboard {
+        crate::attack::pawn(col, c)
+    }
+    pub fn rook(c: Coord, occ: Bitboard) -> Bitboard {
+        crate::attack::rook(c, occ)
+    }
+    pub fn bishop(c: Coord, occ: Bitboard) -> Bitboard {
+        crate::attack::bishop(c, occ)
+    }
+    pub fn bishop_strict(a: Coord, b: Coord) -> Bitboard {
+        crate::between::bishop_strict(a, b)
+    }
+    pub fn rook_strict(a: Coord, b: Coord) -> Bitboard {
+        crate::between::rook_strict(a, b)
+    }
+    pub fn is_bishop_valid(a: Coord, b: Coord) -> bool {
+        crate::between::is_bishop_valid(a, b)
+    }
+    pub fn is_rook_valid(a: Coord, b: Coord) -> bool {
+        crate::between::is_rook_valid(a, b)
+    }
+    pub fn board_all(b: &Board) -> Bitboard {
+        b.all
+    }
+    pub fn z_pieces(c: Cell, s: Coord) -> u64 {
+        crate::zobrist::pieces(c, s)
+    }
+    pub fn z_enpassant(s: Coord) -> u64 {
+        crate::zobrist::enpassant(s)
+    }
+    pub fn z_castling(r: CastlingRights) -> u64 {
+        crate::zobrist::castling(r)
+    }
+    pub fn z_castling_delta(c: Color, s: CastlingSide) -> u64 {
+        crate::zobrist::castling_delta(c, s)
+    }
+    pub fn z_move_side() -> u64 {
+        crate::zobrist::MOVE_SIDE
+    }
+    /// The legality decision shared by `legal::gen_*`, `has_legal_moves` and SAN candidates
+    pub fn is_legal_prefiltered(b: &Board, mv: Move) -> bool {
+        Checker::new(b, DefaultPrechecker::new(b)).is_legal(mv)
+    }
+    pub fn san_candidates<P: crate::MovePush>(b: &Board, piece: Piece, dst: Coord, res: &mut P) {
+        crate::movegen::san_candidates(b, piece, dst, res)
+    }
+    pub fn san_pawn_capture_candidates<P: crate::MovePush>(
+        b: &Board,
+        src: File,
+        dst: File,
+        promote: Option<PromotePiece>,
+        res: &mut P,
+    ) {
+        crate::movegen::san_pawn_capture_candidates(b, src, dst, promote, res)
+    }
+    /// The move on which the early-exit probe of `has_legal_moves` stopped
+    pub static mut FIRST_LEGAL: Option<Move> = None;
+    pub fn note_first_legal(mv: Move) {
+        unsafe {
+            FIRST_LEGAL = Some(mv);
+        }
+    }
+}
